@@ -8,6 +8,7 @@ package sftp
 
 import (
 	"fmt"
+	"io"
 	"os"
 	"path/filepath"
 	"runtime"
@@ -22,7 +23,7 @@ import (
 func TestVerifC15(t *testing.T) {
 	vfMain(t, vfCheck{
 		ID: "C15", Level: "exploration",
-		Rule:        "many short histories: 2..8 goroutines x 5..12 single-packet operations (ReadAt, WriteAt with a fill value unique in the history, size queries via File.Stat and Client.Stat) on a 16..64-byte file through 1..3 handles of one Client; request server over the mutex-atomic store: multi-byte operations, one partition; os-backed server: 1-byte operations partitioned by offset (a pread concurrent with a pwrite may tear on the page cache; a byte cannot). Allocator on/off, reorder proxy, worker/ready hook delays, GOMAXPROCS in {1,2,4,16}. Checked with porcupine v1.3.0 (60 s cap => inconclusive). A class is (server, allocator, goroutines, handles, GOMAXPROCS); non-trivial when operations really overlapped in time.",
+		Rule:        "many short histories: 2..8 goroutines x 5..12 single-packet operations (ReadAt, WriteAt with a fill value unique in the history, size queries via File.Stat and Client.Stat) on a 16..64-byte file through 1..3 handles of one Client; request server over the mutex-atomic store: multi-byte operations, one partition; os-backed server: 1-byte operations partitioned by offset (a pread concurrent with a pwrite may tear on the page cache; a byte cannot). Allocator on/off, reorder proxy, worker/ready hook delays, GOMAXPROCS in {1,2,4,16}. Plus, in every eighth unit: whole-range writes against maximum-size reads (32 KiB, and 48 KiB with the maximum payload raised to 64 KiB) that must be uniform and reach the store as one ReadAt each; and concurrent Write resp. Read calls on ONE File (implicit offset) with unique 16-byte records inside a pre-sized file, which must leave every record exactly once resp. partition the file. Checked with porcupine v1.3.0 (60 s cap => inconclusive). A class is (server, allocator, goroutines, handles, GOMAXPROCS); non-trivial when operations really overlapped in time.",
 		Assumptions: []string{"the backing store's own ReadAt/WriteAt are atomic (store mutex; single bytes on the os file)", "file size does not change", "race detector on"},
 		Units: func(tier vfTier, seed uint64) int {
 			if tier == vfThorough {
@@ -36,7 +37,7 @@ func TestVerifC15(t *testing.T) {
 			}
 			return 8
 		},
-		Floors: map[string]int64{"histories": 200, "big_read_histories": 8, "operations": 5000, "overlapping_operation_pairs": 5000},
+		Floors: map[string]int64{"histories": 200, "big_read_histories": 8, "shared_offset_histories": 12, "operations": 5000, "overlapping_operation_pairs": 5000},
 		Run:    c15Run,
 	})
 }
@@ -93,12 +94,21 @@ var c15Model = porcupine.Model{
 // one ReadAt (a read silently completed by a second request is not one atomic step).
 func c15BigReads(u *vfUnit) {
 	r := u.Rng
-	const span = 32768
+	// default configuration: 32 KiB packets; every other such unit raises the server's maximum payload and
+	// the client's packet size to 64 KiB and works with 48 KiB operations
+	span := 32768
+	var maxTx uint32
+	var copts []ClientOption
+	if (u.Index/8)%2 == 1 {
+		span, maxTx = 49152, 65536
+		copts = append(copts, MaxPacketUnchecked(65536))
+		u.Count("big_read_units_with_raised_max_payload", 1)
+	}
 	store := vfNewStore()
-	alloc := u.Index%16 >= 8
+	alloc := u.Index%16 >= 8 || (u.Index/8)%4 == 3
 	hooks := vfInstallHooks(vfHookCfg{Seed: r.Uint64(), NoLog: true, MaxSleepUs: 80, DelayPct: map[int]int{vhRsWorker: 30, vhPmReady: 20}})
 	defer hooks.Uninstall()
-	sess, _, err := vfConnectProxied(vfSrvCfg{Kind: vfRS, Alloc: alloc, H: store.Handlers(vfHandlerOpt{OpenFile: true})}, 2+r.Intn(4), r.Fork())
+	sess, _, err := vfConnectProxied(vfSrvCfg{Kind: vfRS, Alloc: alloc, MaxTx: maxTx, H: store.Handlers(vfHandlerOpt{OpenFile: true})}, 2+r.Intn(4), r.Fork(), copts...)
 	if err != nil {
 		u.Inconclusive("connect: %v", err)
 		return
@@ -159,7 +169,7 @@ func c15BigReads(u *vfUnit) {
 			}(g)
 		}
 		done := vfGo(func() { wg.Wait() })
-		label := fmt.Sprintf("big-reads/alloc=%v/round=%d", alloc, round)
+		label := fmt.Sprintf("big-reads/alloc=%v/span=%d/round=%d", alloc, span, round)
 		if w, dump := vfAwait(done, 120*time.Second); w != vfDone {
 			if w == vfStuck {
 				u.Violation("history-hangs", label+": operations never return\n"+vfTrim(dump, 2500), nil)
@@ -192,9 +202,140 @@ func c15BigReads(u *vfUnit) {
 	}
 }
 
+// c15SharedOffset: several goroutines call Write (resp. Read) on ONE File, i.e. single-packet
+// operations at the handle's implicit offset, within the extent of a pre-sized file. Records are
+// unique, so the outcome is decidable without search: if every call takes effect atomically
+// (read the offset, transfer, advance) the file ends up holding every record exactly once in some
+// order, and the reads return pairwise distinct records that partition the file.
+func c15SharedOffset(u *vfUnit) {
+	r := u.Rng
+	const rec = 16
+	for round := 0; round < 6; round++ {
+		kind := vfKind(round % 2)
+		G, m := 2+r.Intn(5), 4+r.Intn(6)
+		total := G * m * rec
+		var store *vfStore
+		p := "/shared"
+		sc := vfSrvCfg{Kind: kind, Alloc: round%4 >= 2}
+		if kind == vfRS {
+			store = vfNewStore()
+			sc.H = store.Handlers(vfHandlerOpt{OpenFile: true})
+			store.Put(p, make([]byte, total))
+		} else {
+			p = filepath.Join(u.TempDir(), fmt.Sprintf("shared%d", round))
+			os.WriteFile(p, make([]byte, total), 0o644)
+		}
+		sess, _, err := vfConnectProxied(sc, 2+r.Intn(4), r.Fork())
+		if err != nil {
+			u.Inconclusive("connect: %v", err)
+			return
+		}
+		label := fmt.Sprintf("shared-offset/%v/alloc=%v/goroutines=%d/ops=%d", kind, sc.Alloc, G, m)
+		f, err := sess.C.OpenFile(p, os.O_RDWR)
+		if err != nil {
+			u.Violation("open-failed", label+": "+err.Error(), nil)
+			return
+		}
+		record := func(g, it int) []byte {
+			return []byte(fmt.Sprintf("<%03d:%03d:%05d>\n", g, it, round*1000+g*31+it))[:rec]
+		}
+		var bad atomic.Value
+		run := func(fn func(g, it int)) bool {
+			var wg sync.WaitGroup
+			for g := 0; g < G; g++ {
+				wg.Add(1)
+				go func(g int) {
+					defer wg.Done()
+					for it := 0; it < m; it++ {
+						fn(g, it)
+					}
+				}(g)
+			}
+			done := vfGo(func() { wg.Wait() })
+			if w, dump := vfAwait(done, 120*time.Second); w != vfDone {
+				if w == vfStuck {
+					u.Violation("history-hangs", label+": operations never return\n"+vfTrim(dump, 2500), nil)
+				} else {
+					u.Inconclusive("%s: wall-clock cap", label)
+				}
+				return false
+			}
+			return true
+		}
+		// phase 1: concurrent Write calls on the one File
+		if !run(func(g, it int) {
+			if n, err := f.Write(record(g, it)); err != nil || n != rec {
+				bad.CompareAndSwap(nil, fmt.Sprintf("Write = (%d, %v)", n, err))
+			}
+		}) {
+			return
+		}
+		var content []byte
+		if kind == vfRS {
+			content, _ = store.Get(p)
+		} else {
+			content, _ = os.ReadFile(p)
+		}
+		seen := map[string]int{}
+		for o := 0; o+rec <= len(content); o += rec {
+			seen[string(content[o:o+rec])]++
+		}
+		missing, dup := 0, 0
+		for g := 0; g < G; g++ {
+			for it := 0; it < m; it++ {
+				switch seen[string(record(g, it))] {
+				case 0:
+					missing++
+				case 1:
+				default:
+					dup++
+				}
+			}
+		}
+		off, _ := f.Seek(0, io.SeekCurrent)
+		if missing > 0 || dup > 0 || len(content) != total || off != int64(total) || bad.Load() != nil {
+			u.Violation("not-linearizable:shared-offset-writes:"+kind.String(), fmt.Sprintf("%s: %d concurrent Write calls of %d-byte unique records on one File completed; the file (%d bytes, expected %d) lacks %d of the records and holds %d more than once, the File offset is %d (%v): some completed write took no effect of its own", label, G*m, rec, len(content), total, missing, dup, off, bad.Load()), map[string]any{"config": label})
+		}
+		// phase 2: concurrent Read calls on the one File, from the start
+		f.Seek(0, io.SeekStart)
+		var mu sync.Mutex
+		got := map[string]int{}
+		if !run(func(g, it int) {
+			b := make([]byte, rec)
+			n, err := f.Read(b)
+			if err != nil || n != rec {
+				bad.CompareAndSwap(nil, fmt.Sprintf("Read = (%d, %v)", n, err))
+				return
+			}
+			mu.Lock()
+			got[string(b)]++
+			mu.Unlock()
+		}) {
+			return
+		}
+		rdup := 0
+		for _, c := range got {
+			if c > 1 {
+				rdup++
+			}
+		}
+		if missing == 0 && dup == 0 && (rdup > 0 || len(got) != G*m || bad.Load() != nil) {
+			u.Violation("not-linearizable:shared-offset-reads:"+kind.String(), fmt.Sprintf("%s: %d concurrent Read calls on one File returned %d distinct records, %d of them more than once (%v): the reads do not partition the file", label, G*m, len(got), rdup, bad.Load()), map[string]any{"config": label})
+		}
+		f.Close()
+		u.Eval(label)
+		u.Count("shared_offset_histories", 1)
+		u.Count("operations", int64(2*G*m))
+		if msg := sess.Close(); msg != "" {
+			u.Violation("session-close", msg, nil)
+		}
+	}
+}
+
 func c15Run(u *vfUnit) {
 	if u.Index%8 == 7 {
 		c15BigReads(u)
+		c15SharedOffset(u)
 		return
 	}
 	r := u.Rng
